@@ -10,5 +10,5 @@ FUNCTIONS = ['uxarray.grid.intersections.fast_constant_lat_intersections',
 STANDINS = ["subsets"]
 ASSUMPTIONS = []
 EXPLANATION = ""
-LEVEL_TEXT = 'fast_constant_lat_intersections proved (loop invariant): selected edges are exactly those whose end nodes lie strictly on opposite sides of the parallel, increasing, no duplicates; slicing/renumbering, boxes, circles, data alignment bounded (independent geometric oracle)'
+LEVEL_TEXT = 'fast_constant_lat_intersections proved (loop invariant): selected edges are exactly those whose end nodes lie strictly on opposite sides of the parallel, increasing, no duplicates; UxDataArray._slice_from_grid proved (dataflow): the data are indexed along THEIR OWN grid dimension with exactly the indices the grid slice recorded, and the result carries the sliced grid; slicing/renumbering of the grid itself, boxes, circles bounded (independent geometric oracle)'
 LEVEL_NOTE = 'prange treated as range (A-NUMBA): each iteration writes only its own mask cell; argwhere/unique models'
